@@ -482,6 +482,15 @@ class Proto:
             others = [k for k in range(min(3, len(i["ops"]))) if k != kidx]
             ptrs = [E.ptr(i["ops"][k]) for k in others]
             n = E.lf(i["ops"][3]) if len(i["ops"]) == 4 else lf_const(self.BLOCK)
+            if len(i["ops"]) == 3:
+                # a wide xor (`xor_wide(out, in, ks)` = all blocks of the batch): the bytes it consumes are the bytes
+                # its summary says it writes behind its first parameter, when that is a whole number of blocks
+                g = self.prog.resolve(f.unit, i["callee"][1]) if i["callee"][0] == "f" else None
+                if g is not None and not g.decl and g.key in self.an.summaries:
+                    from .c13 import output_extent
+                    ext = output_extent(self.prog, self.an, g)
+                    if ext and ext > self.BLOCK and ext % self.BLOCK == 0:
+                        n = lf_const(ext)
             st.uses.append({"call": i, "f": f, "a": a, "n": n, "ptrs": ptrs, "pos": st.pos, "T": st.T, "facts": set(st.facts)})
             if n is not None:
                 st.pos = lf_add(st.pos, n)
